@@ -56,8 +56,18 @@ def stride_field_mapping(ctx, rid):
             return node
     blocks = {}
     for n in ast.walk(init):
-        if isinstance(n, ast.If) and norm(n.test) in ("converter.cls == _DownConverter", "converter.cls == _UpConverter"):
-            blocks[norm(n.test).split("== ")[1]] = n
+        # `if converter.cls == X: <loops> else: <raw>`, or the same test flipped (`!=` / `not ... ==`) with the arms swapped
+        if not isinstance(n, ast.If):
+            continue
+        t, flipped = n.test, False
+        if isinstance(t, ast.UnaryOp) and isinstance(t.op, ast.Not):
+            t, flipped = t.operand, True
+        if isinstance(t, ast.Compare) and len(t.ops) == 1 and isinstance(t.ops[0], (ast.Eq, ast.NotEq, ast.Is, ast.IsNot)) and \
+                norm(t.left) == "converter.cls" and norm(t.comparators[0]) in ("_DownConverter", "_UpConverter"):
+            if isinstance(t.ops[0], (ast.NotEq, ast.IsNot)):
+                flipped = not flipped
+            arm = n.orelse if flipped else n.body
+            blocks[norm(t.comparators[0])] = ast.If(test=ast.Constant(value=True), body=arm, orelse=[], lineno=n.lineno, col_offset=n.col_offset)
     ctx.ob(rid, STREAM, "StrideConverter", "field mapping blocks:present", set(blocks) == {"_DownConverter", "_UpConverter"}, f"{sorted(blocks)}", init)
     for kind, blk in sorted(blocks.items()):
         bad = None
@@ -70,11 +80,21 @@ def stride_field_mapping(ctx, rid):
                 me = NS(comb=[])
                 conv = NS(ratio=ratio, sink=NS(data=raw), source=NS(data=raw))
                 env = {"self": me, "converter": conv, "sink": wide, "source": wide, "nbits_from": nb, "nbits_to": nb}
-                body = [EqToTuple().visit(ast.parse(ast.unparse(st)).body[0]) for st in blk.body]
+                # local helpers and aliases of __init__ the block may use (a closure that pairs the lanes, `conv_sink = converter.sink`)
+                def _alias(v):
+                    while isinstance(v, ast.Attribute):
+                        v = v.value
+                    return isinstance(v, ast.Name) and v.id in env
+                prelude = [st for st in init.body if getattr(st, "lineno", 0) < blk.lineno and
+                           (isinstance(st, ast.FunctionDef) or (isinstance(st, ast.Assign) and len(st.targets) == 1 and isinstance(st.targets[0], ast.Name) and
+                                                                isinstance(st.value, (ast.Attribute, ast.Name)) and _alias(st.value)))]
+                body = [EqToTuple().visit(ast.parse(ast.unparse(st)).body[0]) for st in prelude + list(blk.body)]
                 for st in body:
                     ast.fix_missing_locations(st)
                 try:
-                    pyconst.Interp(env, exact=True).run(body)
+                    it_ = pyconst.Interp(env, exact=True)
+                    it_.funcs = dict(getattr(it_, "funcs", None) or {})
+                    it_.run(body)
                 except Exception as ex:     # noqa
                     ctx.need(False, f"StrideConverter field mapping ({kind}) cannot be interpreted: {type(ex).__name__}: {ex}")
                 n_cfg += 1
